@@ -510,6 +510,9 @@ func absPaths(c *Ctx, dv *dev) ([]*Path, error) {
 	for f := range dv.ctors {
 		only[f] = true
 	}
+	for f := range pureHelpers(c.P) { // value-only helpers (e.g. an extracted scaling function) are seen through
+		only[f] = true
+	}
 	paths, err := Enumerate(fn, SymConfig{Prog: c.P, MaxDepth: 2, Collapse: true, CollapsePure: true, OnlyInline: only})
 	c.Paths += len(paths)
 	return paths, err
